@@ -428,9 +428,9 @@ def run(c):
     c.prove()
     run_corpus(c)
     C4.stream_update_bounds(c)
-    stream_main(c, c.n(90, 700))
-    stream_main(c, c.n(12, 80), variants=("GP",), stream="f24")
-    stream_main(c, c.n(12, 80), variants=("GP",), stream="f25")
+    stream_main(c, c.n(200, 3000))
+    stream_main(c, c.n(15, 250), variants=("GP",), stream="f24")
+    stream_main(c, c.n(15, 250), variants=("GP",), stream="f25")
     probe_f27(c)
     c.exhaustive = False
     c.notes.append("update_bounds enumerated over all weak orderings of its four arguments; the run streams are "
